@@ -118,6 +118,7 @@ type Exec struct {
 	Assumes    map[string]bool
 	deadline   time.Time
 	TimedOut   bool
+	pending    []pendingObl
 	model      map[string]uint64 // a model of the current path condition (nil: unknown)
 	ModelHits  int
 }
@@ -156,6 +157,7 @@ type State struct {
 	flocks    map[string]*flockState
 	crcApps   []*term.T
 	depth     int
+	decided   map[*term.T]bool
 }
 
 type obsRec struct {
@@ -209,43 +211,64 @@ func (ex *Exec) runPath() {
 	ex.pos = 0
 	ex.st = ex.newState()
 	ex.model = nil
+	ex.pending = nil
 	ex.C.Paths++
-	defer func() {
-		ex.C.Instrs += ex.st.instrs
-		if ex.st.sched != nil {
-			ex.st.sched.abortAll()
-		}
-		r := recover()
-		switch r := r.(type) {
-		case nil:
+	r := ex.runPathBody()
+	// obligations met since the last decision point are decided now, unless the
+	// path ended because its condition became unsatisfiable
+	if pe, ok := r.(pathEnd); !(ok && pe.reason == "assume") {
+		func() {
+			defer func() {
+				if r2 := recover(); r2 != nil {
+					if _, ok := r2.(pathEnd); !ok {
+						panic(r2)
+					}
+				}
+			}()
+			ex.flush()
+		}()
+	}
+	ex.pending = nil
+	ex.C.Instrs += ex.st.instrs
+	if ex.st.sched != nil {
+		ex.st.sched.abortAll()
+	}
+	switch r := r.(type) {
+	case nil:
+		ex.C.PathsDone++
+	case pathEnd:
+		if r.reason == "assume" {
+			ex.C.PathsInfeas++
+		} else if r.reason == "done" {
 			ex.C.PathsDone++
-		case pathEnd:
-			if r.reason == "assume" {
-				ex.C.PathsInfeas++
-			} else if r.reason == "done" {
-				ex.C.PathsDone++
-			}
-		case unsupportedErr:
-			ex.C.Unsupported[r.msg]++
-			if ex.Cfg.Verbose > 0 {
-				fmt.Fprintln(os.Stderr, "UNSUPPORTED:", r.msg)
-			}
-		case *goPanic:
-			// an interpreted panic reached the top of the harness
-			if ex.Cfg.ExpectPanics {
-				ex.C.PathsDone++
-				return
-			}
-			ex.reportViolation("panic: "+r.desc, "panic", r.pos, nil)
-		default:
-			panic(r)
 		}
+	case unsupportedErr:
+		ex.C.Unsupported[r.msg]++
+		if ex.Cfg.Verbose > 0 {
+			fmt.Fprintln(os.Stderr, "UNSUPPORTED:", r.msg)
+		}
+	case *goPanic:
+		// an interpreted panic reached the top of the harness
+		if ex.Cfg.ExpectPanics {
+			ex.C.PathsDone++
+			return
+		}
+		ex.reportViolation("panic: "+r.desc, "panic", r.pos, nil)
+	default:
+		panic(r)
+	}
+}
+
+func (ex *Exec) runPathBody() (res any) {
+	defer func() {
+		res = recover()
 	}()
 	ex.initGlobals()
 	ex.callFunction(ex.Harness, nil, nil)
 	if ex.st.sched != nil {
 		ex.st.sched.finishMain(ex)
 	}
+	return nil
 }
 
 // backtrack moves to the next unexplored alternative; false when exhausted.
@@ -354,6 +377,19 @@ func (ex *Exec) Branch(c *term.T) bool {
 	if c.IsConst() {
 		return c.IsTrue()
 	}
+	if c.Kind == term.KNot {
+		return !ex.Branch(c.Args[0])
+	}
+	// a condition already decided on this path stays decided (the path condition only grows)
+	if v, ok := ex.st.decided[c]; ok {
+		return v
+	}
+	r := ex.branch1(c)
+	ex.st.decided[c] = r
+	return r
+}
+
+func (ex *Exec) branch1(c *term.T) bool {
 	if ex.replaying() {
 		d := ex.trace[ex.pos]
 		ex.pos++
@@ -374,6 +410,7 @@ func (ex *Exec) Branch(c *term.T) bool {
 		ex.st.pc = append(ex.st.pc, cc)
 		return taken
 	}
+	ex.flush()
 	d := &dec{kind: dBranch, cond: c, lvl: ex.Solver.Level()}
 	var rt, rf smt.Result
 	var mt, mf map[string]uint64
@@ -434,6 +471,16 @@ func (ex *Exec) Assume(c *term.T) {
 	if c.IsTrue() {
 		return
 	}
+	if !ex.replaying() {
+		ex.flush()
+	}
+	ex.assumeNoFlush(c)
+}
+
+func (ex *Exec) assumeNoFlush(c *term.T) {
+	if c.IsTrue() {
+		return
+	}
 	if c.IsFalse() {
 		ex.endPath("assume")
 	}
@@ -473,53 +520,72 @@ func (ex *Exec) Assume(c *term.T) {
 	ex.st.pc = append(ex.st.pc, c)
 }
 
-// Assert checks an obligation on the current path.
+// Assert records an obligation. Obligations met between two decision points
+// share the same path condition and are decided together by one query when the
+// next new decision is made or the path ends (flush); a sat answer is then
+// resolved obligation by obligation.
 func (ex *Exec) Assert(c *term.T, label string, kind string, pos token.Pos) {
-	if c.IsTrue() {
-		if !ex.replaying() {
-			ex.C.Obligations++
-			ex.C.Discharged++
-			ex.sample(label, c)
-		}
-		return
-	}
 	if ex.replaying() {
-		d := ex.trace[ex.pos]
-		if d.kind != dAssert || d.cond != c {
-			panic("nondeterministic replay: assert " + label)
-		}
-		ex.pos++
-		if !d.ok {
-			// violated earlier: the path continued under the assumption c
-			ex.Assume(c)
-		}
-		return
+		return // decided when this prefix was first explored
 	}
 	ex.C.Obligations++
 	ex.sample(label, c)
-	d := &dec{kind: dAssert, cond: c, lvl: ex.Solver.Level()}
-	ex.trace = append(ex.trace, d)
-	ex.pos++
-	var r smt.Result
-	var vals map[int]uint64
-	if c.IsFalse() {
-		r, vals = ex.Solver.CheckWith(nil, ex.st.inputs)
-	} else {
-		r, vals = ex.Solver.CheckWith([]*term.T{term.Not(c)}, ex.st.inputs)
-	}
-	switch r {
-	case smt.Unsat:
-		d.ok = true
+	if c.IsTrue() {
 		ex.C.Discharged++
 		return
-	case smt.Unknown:
-		d.ok = true
-		ex.C.UnknownObl++
+	}
+	ex.pending = append(ex.pending, pendingObl{c, label, kind, pos})
+	if c.IsFalse() || len(ex.pending) >= 64 {
+		ex.flush()
+	}
+}
+
+type pendingObl struct {
+	c     *term.T
+	label string
+	kind  string
+	pos   token.Pos
+}
+
+// flush decides the pending obligations under the current path condition.
+func (ex *Exec) flush() {
+	if len(ex.pending) == 0 {
 		return
 	}
-	d.ok = false
-	ex.reportViolation(label, kind, pos, vals)
-	ex.Assume(c)
+	pend := ex.pending
+	ex.pending = nil
+	var cs []*term.T
+	for _, p := range pend {
+		cs = append(cs, p.c)
+	}
+	all := term.And(cs...)
+	if !all.IsFalse() && len(pend) > 1 {
+		r, _ := ex.Solver.CheckWith([]*term.T{term.Not(all)}, nil)
+		if r == smt.Unsat {
+			ex.C.Discharged += len(pend)
+			return
+		}
+	}
+	// resolve individually, in program order; a violated obligation is assumed
+	// afterwards (as if the harness stopped caring about that case)
+	for _, p := range pend {
+		var r smt.Result
+		var vals map[int]uint64
+		if p.c.IsFalse() {
+			r, vals = ex.Solver.CheckWith(nil, ex.st.inputs)
+		} else {
+			r, vals = ex.Solver.CheckWith([]*term.T{term.Not(p.c)}, ex.st.inputs)
+		}
+		switch r {
+		case smt.Unsat:
+			ex.C.Discharged++
+		case smt.Unknown:
+			ex.C.UnknownObl++
+		default:
+			ex.reportViolation(p.label, p.kind, p.pos, vals)
+			ex.assumeNoFlush(p.c)
+		}
+	}
 }
 
 func (ex *Exec) sample(label string, c *term.T) {
@@ -595,6 +661,7 @@ func (ex *Exec) Concretize(t *term.T, what string) uint64 {
 		ex.st.pc = append(ex.st.pc, c)
 		return v
 	}
+	ex.flush()
 	d := &dec{kind: dConc, cond: t, lvl: ex.Solver.Level()}
 	r, vals := ex.Solver.CheckWith(nil, []*term.T{t})
 	if r != smt.Sat {
@@ -636,6 +703,7 @@ func (ex *Exec) Choose(n int) int {
 		}
 		return d.choice
 	}
+	ex.flush()
 	d := &dec{kind: dSched, nalts: n, lvl: ex.Solver.Level()}
 	ex.trace = append(ex.trace, d)
 	ex.pos++
@@ -670,7 +738,7 @@ func sanitize(s string) string {
 
 func (ex *Exec) newState() *State {
 	return &State{inputSeen: map[string]int{}, globals: map[*ssa.Global]*Value{},
-		locks: map[*Value]*lockState{}, ghost: map[string]Value{}, flocks: map[string]*flockState{}}
+		locks: map[*Value]*lockState{}, ghost: map[string]Value{}, flocks: map[string]*flockState{}, decided: map[*term.T]bool{}}
 }
 
 // Reach records a vacuity witness label; the first time a label is reached a
